@@ -34,7 +34,7 @@ MODES = ["ab", "ab0", "a"]
 
 
 def plan(tier, seed):
-    n = 36 if tier == "quick" else 600
+    n = 96 if tier == "quick" else 900
     specs = [{"part": "enum", "seed": seed, "i": i} for i in range(n)]
     m = 16 if tier == "quick" else 200
     specs += [{"part": "external", "seed": seed, "i": i, "kills": 12 if tier == "quick" else 25} for i in range(m)]
